@@ -701,7 +701,7 @@ STREAMS.update({'eq': eq, 'cleanup': cleanup, 'cache': cache})
 
 def sigcmp(tier, seed, ci, nc):
     univ = U('abc', 2) if tier == 'quick' else U('abc', 3)
-    return _slice((('rt:sigcmp', ps) for ps in univ), ci, nc)
+    return _slice(itertools.chain([('rt:eq_symmetry',)], (('rt:sigcmp', ps) for ps in univ)), ci, nc)
 
 
 STREAMS['sigcmp'] = sigcmp
@@ -788,6 +788,7 @@ def lateattr(tier, seed, ci, nc):
         for v in ('as_forged', 'emulate', 'plain'):
             yield ('rt:lateattr', v)
         yield ('rt:truth_history',)
+        yield ('rt:receiver_modifiers',)
     return _slice(gen(), ci, nc)
 
 
@@ -1109,6 +1110,7 @@ def wrap(tier, seed, ci, nc, count=600):
         yield ('rt:wrap', kind, tuple(own_list), fps, placement)
     if ci == 0:
         yield ('rt:wrap_identity',)
+        yield ('rt:wrap_faults',)
     for _ in range(count // nc // 2):
         k = rng.choice([1, 2, 2, 3])
         fl = tuple(rng.choice([s for s in U('ab', 2)]) for _ in range(k))
